@@ -34,6 +34,10 @@ def templates(rng):
         "let A := 1, 2; let B := A 10 add, A 20 add; A B", "let add := 5; add", "let A := 1; if (A 1 ?eq) then (A 1 add) else (A)",
         "E (|A| E (|B| E (|C| A B C)))", "{{{7}}} (|F| F (|G| G (|H| H)))", "let F := {1, 2}; [F]", "?{1} (|F| F)",
         "let X := 3; {X} (|F| let X2 := 4; F X2)", "let A := 1; {A} {A} (|F G| F G add)",
+        # names across the splices of one format string (plain context, resolved last to first)
+        '5 "%( A %)%( let A := 1; A %)"', 'let A := 5; "%( A %)%( let B := A; B %)"', '5 "%( A B add %)-%( let A := 1; A %)-%( let B := 2; B %)"',
+        '5 "%( let A := 1; A %)" A', '5 "%( let A := 1; %)%( A %)"', '5 "%( let A := 1; A %)%( let A := 2; A %)"',
+        '5 "%( let A := 1; A %)-%( let B := 2; B %)-%( A B add %)"', '(1, 2) "%( A %)%( let A := E; A %)"', '5 "%( [|A| A] %)%( A %)"', '5 "%( A %)%( (|A| A) %)"',
         # binders with an empty body: still a scope of their own
         "1 (|A|)", "1 2 (|A B|)", "let A := 1; 2 (|A|) A", "1 2 (|A|) (|A|)", "1 ?(|A|) 5", "1 !(|A|) 5", "1 [|A|]", "1 {|A|} apply",
         "let A := 1; 2 ?(|A|) A", "1 (|A| (|A|))",
